@@ -211,3 +211,12 @@ func CanonMultiset(bss []match.Bindings) string {
 
 // Short is exported short().
 func Short(x interface{}) string { return short(x) }
+
+// FromJSONSafe parses JSON text; ok=false if it is not JSON.
+func FromJSONSafe(s string) (interface{}, bool) {
+	var x interface{}
+	if err := json.Unmarshal([]byte(s), &x); err != nil {
+		return nil, false
+	}
+	return x, true
+}
